@@ -9,7 +9,7 @@
    repaired code checks before it mutates), OCrash = the C code would read or write outside the
    backing store / read uninitialised memory, OFuel = a loop of the model ran out of fuel (both
    excluded by theorem for in-range use). *)
-From Coq Require Import List Arith Bool ZArith.
+From Coq Require Import List Arith Bool ZArith Permutation Sorted.
 From CelloV Require TableModel.
 Import ListNotations.
 
@@ -711,4 +711,57 @@ Section Seq.
     | Some n => match t_objs (titems t) n with Some vs => vs | None => [] end
     | None => []
     end.
+
+  (* ================================================================== statements *)
+  (* (definitions only; they are proved in SeqProofs.v, SortProofs.v, SeqTupleProofs.v) *)
+
+  (* one step of the abstract sequence as a RELATION: sort is specified, not computed — any
+     permutation ordered by the comparison function is accepted (quicksort is not stable, and a
+     Tuple sorts pointers), every other operation is the function spec_step *)
+  Definition sorted_by_ltb (l : list E) : Prop := StronglySorted (fun x y => ltb y x = false) l.
+  Definition spec_ok (c : kind) (l : list E) (o : sop) (l' : list E) (r : out) : Prop :=
+    match o with
+    | SSort => r = OUnit /\ Permutation l l' /\ sorted_by_ltb l'
+    | _ => spec_step c l o = (l', r)
+    end.
+
+  (* invariants of the three representations *)
+  Definition a_inv (a : array) : Prop :=
+    exists vs rest, cells a = map Some vs ++ rest /\ length vs = nitems a /\ length (cells a) = nslots a.
+  Definition l_inv (l : llist) : Prop := lnitems l = length (lelems l).
+  (* pairwise distinct pointers (finding F3: Tuple iteration is by pointer identity) *)
+  Definition distinct (vs : list E) : Prop := ForallOrdPairs (fun x y => same x y = false) vs.
+  Definition t_inv (t : tuple) : Prop :=
+    theap t = true /\ exists vs, titems t = map TObj vs ++ [TTerm] /\ distinct vs.
+
+  (* the pointers an operation stores into a Tuple must be new to it and pairwise distinct *)
+  Definition new_to (vs : list E) (v : E) : Prop := Forall (fun x => same x v = false /\ same v x = false) vs.
+  Definition t_fresh (vs : list E) (o : sop) : Prop :=
+    match o with
+    | SPush v | SAppend v | SPushAt _ v | SSet _ v => new_to vs v
+    | SConcat ws => distinct ws /\ Forall (new_to vs) ws
+    | SAssign ws => distinct ws
+    | _ => True
+    end.
+
+  (* "the representation refines the abstract sequence along a history": as long as every
+     operation is inside the container's contract (and `extra` holds), each step keeps the
+     invariant, and outcome and new abstract value are those of the specification *)
+  Section Refines.
+    Variable St : Type.
+    Variable step : St -> sop -> St * out.
+    Variable abs : St -> list E.
+    Variable inv : St -> Prop.
+    Variable c : kind.
+    Variable extra : list E -> sop -> Prop.
+    Fixpoint refines (s : St) (ops : list sop) : Prop :=
+      match ops with
+      | [] => True
+      | o :: r =>
+        in_range c (abs s) o = true -> extra (abs s) o ->
+        inv (fst (step s o)) /\
+        spec_ok c (abs s) o (abs (fst (step s o))) (snd (step s o)) /\
+        refines (fst (step s o)) r
+      end.
+  End Refines.
 End Seq.
